@@ -60,8 +60,9 @@ Inductive ty :=
 | TOpaque.                                 (* any other annotation (tuple[...], Literal, ...): passes through *)
 
 Record field := { f_name : str; f_ty : ty; f_default : option val }.   (* default / default_factory() *)
-Record cls := { c_name : str; c_fields : list field; c_strip : list str }.
-(* c_strip: the fields X with `self.X = self.X.strip()` in __post_init__ *)
+Record cls := { c_name : str; c_fields : list field; c_strip : list str; c_abstract : bool }.
+(* c_strip: the fields X with `self.X = self.X.strip()` in __post_init__;
+   c_abstract: the class cannot be instantiated (abstract methods / Protocol): its constructor raises TypeError *)
 Definition registry := list cls.
 
 (* ------------------------------------------------------------------------------------------ *)
@@ -226,6 +227,7 @@ Section Model.
 
   (* cls( **kwargs ): every field from kwargs, else its default, else TypeError; then __post_init__ *)
   Definition construct (c : cls) (kw : list (str * option val)) : option val :=
+    if c_abstract c then None else
     match sequence (map (fun f => match assoc (f_name f) kw with
                                   | Some r => r
                                   | None => f_default f
@@ -375,6 +377,7 @@ Section Model.
         match find_cls c with
         | None => false
         | Some k =>
+            negb (c_abstract k) &&
             (fix go (fl : list (str * val)) (fs : list field) {struct fl} : bool :=
                match fl, fs with
                | [], [] => true
@@ -485,3 +488,39 @@ Section Model.
   Definition is_object (j : json) : bool := match j with JObj _ => true | _ => false end.
 
 End Model.
+
+(* ------------------------------------------------------------------------------------------ *)
+(* xlsx_extractor._get_cell_value (as repaired by fixes/C05-xlsx-duration-cell.patch) on the values
+   openpyxl (read_only, data_only) hands out for a cell                                         *)
+Inductive cell :=
+| CNone
+| CStr (x : str)                 (* text and error cells *)
+| CInt (z : Z)
+| CFloat (tok : str)
+| CBool (b : bool)
+| CDateTimeLike (iso : str)      (* datetime / date / time; iso = value.isoformat() (oracle) *)
+| CTimedelta (text : str)        (* duration cells; text = str(value) (oracle) *)
+| CForeign (tag : str).          (* anything else: passed through unchanged *)
+
+Definition get_cell_value (c : cell) : val :=
+  match c with
+  | CNone => VNone
+  | CDateTimeLike iso => VStr iso
+  | CTimedelta text => VStr text
+  | CStr x => VStr x
+  | CInt z => VInt z
+  | CFloat t => VFloat t
+  | CBool b => VBool b
+  | CForeign t => VOther t
+  end.
+
+Definition cell_known (c : cell) : bool := match c with CForeign _ => false | _ => true end.
+
+(* cli.main's JSON branch: the payload is encoded completely, then written (exit 0); if encoding
+   fails nothing is written to stdout (exit 1) *)
+Inductive cli_outcome :=
+| CliJson (payload : json)       (* exit 0, stdout = json.dumps(payload) + "\n" *)
+| CliError.                      (* exit 1, stdout empty *)
+
+Definition cli_json (payload : json) : cli_outcome :=
+  if encodable payload then CliJson payload else CliError.
